@@ -158,6 +158,9 @@ def main():
                 if res[0][:3] != res[1][:3]:
                     index["c_vs_llvm_differences"].append(dict(meta, llvm=res[0][:3], c=res[1][:3]))
                     # does the C result equal the machine's result on the tree C parses?
+                    if rot(fn) == fn:
+                        index.setdefault("unexplained", []).append(dict(meta, llvm=res[0][:3], c=res[1][:3]))
+                        continue
                     if not any(dd.startswith(f"Definition r{k} ") for dd in rdefs):
                         rdefs.append(f"Definition r{k} := {D.coq_function(rot(fn))}.")
                     rcases.append(f"run_expr_check 100000 r{k} ({xi}) ({yi}) {M.fl([xf])[1:-1]} {M.fl([yf])[1:-1]} {M.zl(P)} {M.fl(Q)} {M.fl(res[1][3])} {M.zl(res[1][2])}")
